@@ -643,6 +643,55 @@ def rule_clause_templates(ctx):
                 defenders = s
         r.check(conflict is not None, b.id + "|conflict", "conflict-clause", "conflict clause [-self, -attacker] per attacker", "the per-attacker conflict clause of the product encoding is not [-self, -attacker]", b.loc())
         r.check(defenders is not None, b.id + "|defenders", "defender-set", "defender set of an attacker = the attackers of that attacker (positive literals)", "the defender sets of the product encoding are not the positive literals of the attackers' attackers", b.loc())
+        if defenders is not None:
+            _defender_set_per_attacker(prog, r, b, defenders)
+
+
+def _defender_set_per_attacker(prog, r, b, push):
+    """every attacker met by the iteration contributes a defender set: the push lies on every path through the body of the loop
+    (or per-element closure) and the iterated sequence is not filtered"""
+    from .. import prov as pv, tags
+
+    anchor = b.id + "|defenders"
+    body = push.body
+    if body.kind == "closure":
+        rets = [bb for bb in body.reachable if body.blocks[bb]["term"]["k"] == "return"]
+        seen = {0} if push.bb != 0 else set()
+        st = list(seen)
+        while st:
+            x = st.pop()
+            for sc in body.succ[x]:
+                if sc != push.bb and sc not in seen and not body.blocks[sc]["cleanup"]:
+                    seen.add(sc)
+                    st.append(sc)
+        skip = [bb for bb in rets if bb in seen]
+        r.check(not skip, anchor, "defender-set-skipped", "the per-attacker closure pushes a defender set on every path", "the per-attacker closure %s can return without pushing a defender set: the attacker is left undefended-against" % body.path, push.loc())
+        return
+    loops = [(h, blks) for h, blks in body.loops() if push.bb in blks]
+    if not loops:
+        r.ok(anchor, "the defender-set push is not inside a loop: one-set-per-attacker NOT decided", push.loc())
+        return
+    h, blks = min(loops, key=lambda x: len(x[1]))
+    seen = {h}
+    st = [h]
+    back = False
+    while st:
+        x = st.pop()
+        for sc in body.succ[x]:
+            if sc == h:
+                back = True
+                continue
+            if sc in blks and sc != push.bb and sc not in seen and not body.blocks[sc]["cleanup"]:
+                seen.add(sc)
+                st.append(sc)
+    r.check(not back, anchor, "defender-set-skipped", "every iteration of the attacker loop pushes a defender set", "an iteration of the attacker loop of %s can go round without pushing a defender set: that attacker needs no defender in the encoding" % body.path, push.loc())
+    # the iterated sequence: all attacks to the argument, unfiltered
+    nexts = [s for s in body.calls() if s.bb in blks and callee_decl(callee_of(s)) == "core::iter::traits::iterator::Iterator::next"]
+    outer = [s for s in nexts if all(s.bb in bl for hh, bl in loops)]
+    for s in outer[:1]:
+        _, calls, _ = data_deps(body, s.node["args"][0])
+        filt = [c for c in calls if callee_decl(callee_of(c)) in tags.FILTERING]
+        r.check(not filt, anchor, "attackers-filtered", "the attacker loop iterates the unfiltered attack list", "the attacker loop of %s iterates a filtered list (%s): some attackers get neither conflict clause nor defender set" % (body.path, ", ".join(callee_decl(callee_of(c)).rsplit("::", 1)[-1] for c in filt)), s.loc())
 
 
 def _norm_def_node(n):
